@@ -1,1 +1,11 @@
-//! Predicates naming the input classes of known findings (see /verif/KNOWN_FINDINGS.txt).
+//! Predicates naming the input classes of the findings listed in /verif/KNOWN_FINDINGS.txt.
+//! A harness with a listed finding exists twice: the main form assumes `!class(input)`, the
+//! confirming form (`..._kf_<class>`) assumes `class(input)` and is expected to fail while the
+//! finding is listed.  Together they cover the whole bound, so nothing is hidden.
+
+/// C02/C01: the query coordinate is an end point of an even, non-zero number of members of a
+/// MultiLineString (`ends` = number of member end points equal to the query).
+#[inline]
+pub fn mls_query_at_evenly_shared_endpoint(ends: u8) -> bool {
+    ends > 0 && ends % 2 == 0
+}
